@@ -118,6 +118,12 @@ def run(ctx):
         scenarios.append(dc.Scenario(
             leaf=("endpoint", ("ret", v)), method="GET",
             ehandlers=[(10, {2: ("ret", ("str", "from-error-handler"))})]))
+    # every tuple body with every content type, status and headers left out
+    for tbody in TBODIES:
+        for tct in TCTYPES:
+            scenarios.append(dc.Scenario(
+                leaf=("endpoint", ("ret", ("tuple", [tbody, ("str", tct)]))),
+                method="GET"))
     for _ in range(n):
         roll = rng.random()
         if roll < 0.3:
